@@ -5,7 +5,7 @@ EXTENDS Driver, TLC, Json
 VARIABLES s, pc, handler, o
 vars == <<s, pc, handler, o>>
 NoOutcome == [hang |-> FALSE, crash |-> FALSE, exit |-> -1, sol |-> "absent", code |-> -1, dimsOK |-> TRUE,
-              msgNonEmpty |-> FALSE, stderrNonEmpty |-> FALSE, stdoutNonEmpty |-> FALSE]
+              msgNonEmpty |-> FALSE, stderrNonEmpty |-> FALSE, stdoutNonEmpty |-> FALSE, altN |-> 0, altBad |-> 0, nsol |-> -1, altSeq |-> TRUE]
 Init == s \in Scenarios /\ pc = "open" /\ handler = FALSE /\ o = NoOutcome
 
 \* a failure with result class `code` detected in the current phase
@@ -23,7 +23,10 @@ Options == pc = "options" /\ IF OptBad(s) THEN Fail(500) ELSE Step("body")
 Body    == pc = "body"    /\ IF BodyBad(s) THEN Fail(500) ELSE Step("convert")
 Convert == pc = "convert" /\ IF ConvBad(s) THEN Fail(500) ELSE IF s.model \in {"infeas", "infeas_nested"} THEN Fail(200) ELSE Step("report")
 Report  == /\ pc = "report" /\ pc' = "done" /\ UNCHANGED <<s, handler>>
-           /\ IF WantsSol(s) /\ s.out = "ok" THEN o' = [o EXCEPT !.sol = "ok", !.code = Scripted, !.msgNonEmpty = TRUE, !.exit = 0]
+           \* (the further solutions are written while the solver reports them, before the final result)
+           /\ IF WantsSol(s) /\ s.out = "ok" THEN o' = [o EXCEPT !.sol = "ok", !.code = Scripted, !.msgNonEmpty = TRUE, !.exit = 0,
+                                                               !.altN = IF s.opt = "solstub" THEN NAlt ELSE 0,
+                                                               !.nsol = IF s.opt = "solstub" THEN NAlt ELSE -1]
               ELSE IF WantsSol(s) THEN o' = [o EXCEPT !.exit = 1, !.stderrNonEmpty = TRUE]
               ELSE o' = [o EXCEPT !.exit = 0, !.stdoutNonEmpty = TRUE]
 Next == Open \/ Options \/ Body \/ Convert \/ Report \/ (pc = "done" /\ UNCHANGED vars)
